@@ -79,6 +79,18 @@ func TestVerifReplayValues(t *testing.T) {
 			}
 		}
 	}
+	// a negative signed value is never the unsigned value with the same bit pattern
+	for _, c := range []struct {
+		i int64
+		u uint64
+	}{{-1, math.MaxUint64}, {-2, math.MaxUint64 - 1}, {math.MinInt64, 1 << 63}, {-1, 1}} {
+		n++
+		a := &sdcpb.TypedValue{Value: &sdcpb.TypedValue_IntVal{IntVal: c.i}}
+		b := &sdcpb.TypedValue{Value: &sdcpb.TypedValue_UintVal{UintVal: c.u}}
+		if EqualTypedValues(a, b) || EqualTypedValues(b, a) {
+			fmt.Printf("REPLAY-FAIL fn=%s clause=different_kinds_differ input=v1=int %d,v2=uint %d why=compare equal\n", fnEq, c.i, c.u)
+		}
+	}
 	// decimal64: values are compared as numbers, whatever the number of fraction digits they are written with
 	for _, c := range []struct {
 		d1   int64
